@@ -336,6 +336,22 @@ class IpPairing(ZeroconfPairing):
         response = await self.connection.put_json("/characteristics", {"characteristics": char_payload})
         response_status: dict[tuple[int, int], dict[str, Any]] = {}
         if response:
+            # A request-wide error status applies to every characteristic
+            # of the request that the reply does not mention individually.
+            global_status = response.get("status", 0)
+            if to_status_code(global_status) != HapStatusCode.SUCCESS:
+                description = to_status_code(global_status).description
+                mentioned = {
+                    (c["aid"], c["iid"])
+                    for c in response.setdefault("characteristics", [])
+                    if isinstance(c, dict) and "aid" in c and "iid" in c
+                }
+                for payload in char_payload:
+                    key = (payload["aid"], payload["iid"])
+                    if key not in mentioned:
+                        listener_update.pop(key, None)
+                        response_status[key] = {"status": global_status, "description": description}
+
             # If there is a response it means something failed so
             # we need to remove the listener update for the failed
             # characteristics.
